@@ -107,6 +107,16 @@ def eval_soft(smt2, ids, theta, first_pos):
 
 def gen_small(rw):
     r = rw.random()
+    if r < 0.25:
+        # dependency bait: a load whose result is an operand of a later store, with another store of the same space in
+        # between (the load is reached both through an operand chain and through an ordering tuple)
+        sp = rw.choice(["S", "M"])
+        ld, st = sp + "LOAD", sp + "STORE"
+        env = lambda: (rw.choice(["CALLVALUE", "CALLER", "ADDRESS", "NUMBER"]), None)
+        mid = [env(), env(), (st, None)]
+        tail = rw.choice([[(st, None)], [("SWAP1", None), (st, None)], [("DUP1", None), (st, None)]])
+        pad = [("SWAP1", None), ("SWAP1", None)] if rw.random() < 0.4 else []
+        return [(ld, None)] + mid + pad + tail
     L = rw.choice([2, 3, 3, 4, 4, 5])
     return B.gen_block(rw, length=L, depth=rw.choice([0, 1, 2, 2, 3]), pseudo=False, ending=False, splits=False,
                        profile=rw.choice(["plain", "stack", "stack", "rules", "memory"]))
@@ -131,7 +141,7 @@ def task(spec):
     viols = []
     per_instance = {}
     for vi, var in enumerate(variants):
-        op = {"argv": base + var, "blocks": blocks, "peers": peers if vi == 0 else peers[:1], "max_len": 6, "greedy": False}
+        op = {"argv": base + var, "blocks": blocks, "peers": peers if vi == 0 else peers[:1], "max_len": 7, "greedy": False}
         st, recs = procs.run_sut(pipe.run_solve, op, cpu_s=400)
         if st != "ok":
             summ["inconclusive"] += 1
@@ -149,11 +159,17 @@ def task(spec):
             res0 = rec["results"][0]
             summ["evals"] += 1
             summ["keys"].append(digest([sfs["user_instrs"], sfs["tgt_ws"], sfs["src_ws"], base + var]))
-            if res0["exc"] is not None:
-                summ["inconclusive"] += 1
-                summ["probes"]["encoder_raised"] = summ["probes"].get("encoder_raised", 0) + 1
-                continue
             have_witness = r6["best"]["length"] is not None
+            if res0["exc"] is not None:
+                summ["probes"]["encoder_raised"] = summ["probes"].get("encoder_raised", 0) + 1
+                if have_witness:
+                    # no problem text at all for a realizable specification: every optimal program was removed
+                    viols.append({"class": ["a:encoder-raises-with-witness", res0["exc"].split(":")[0], str(res0.get("frame")), "+".join(var) or "default"],
+                                  "detail": "%s: the encoder raised %s although %s realizes the specification within init_progr_len=%d | flags %s | sub-block %s" % (
+                                      rec["key"], res0["exc"], " ".join(r6["witness"]), sfs["init_progr_len"], " ".join(base + var), rec["sub_block"]), "replay": rp})
+                else:
+                    summ["inconclusive"] += 1
+                continue
             if res0["outcome"] == "unsat":
                 if have_witness:
                     viols.append({"class": ["a:unsat-with-witness", crit, "+".join(var) or "default"],
@@ -226,7 +242,7 @@ def replay(rp):
     costs = {}
     for var in variants:
         op = {"argv": rp["argv"] + [f for f in var if f not in rp["argv"]], "blocks": [rp["block"]], "peers": [{"kind": "optimal", "rlimit": 40000000}],
-              "max_len": 6, "greedy": False}
+              "max_len": 7, "greedy": False}
         st, recs = procs.run_sut(pipe.run_solve, op, cpu_s=400)
         if st != "ok":
             continue
@@ -237,6 +253,8 @@ def replay(rp):
             p0 = "-push0" not in rp["argv"]
             r6 = R6.search(sfs, sfs["init_progr_len"], sfs["max_sk_sz"], push0=p0)
             r = rec["results"][0]
+            if r["exc"] is not None and r6["best"]["length"] is not None:
+                return {"class": ["a:encoder-raises-with-witness", r["exc"].split(":")[0]], "detail": r["exc"], "replay": rp}
             if r["outcome"] == "unsat" and r6["best"]["length"] is not None:
                 return {"class": ["a:unsat-with-witness", rp["crit"]], "detail": "unsat with witness %s" % r6["witness"], "replay": rp}
             if r["outcome"] == "optimal" and R2.realizes(sfs, r["ids"]).ok:
